@@ -13,6 +13,11 @@ def check_values(c, text, consumed, acc, line, what):
     """direct oracle: accessor reply `acc` vs Python json on text[:consumed]"""
     want = jsongen.py_event(text[:consumed])
     if want is None:
+        if jsongen.py_event_status(text[:consumed]) == 'notevent':
+            # valid JSON, every member once, but not an event (a member of the wrong type, an id that is not 64 hex digits ...):
+            # whatever the accessors return cannot be what the independent parser extracts
+            c.violation('oracle', '%s: a valid JSON text that does not denote an event was accepted' % what, [line[:3000], '# accessors: ' + acc[:600]])
+            return False
         return None
     t = acc.split(' ')
     got_ok = (t[0] == 'ok' and t[1] == hx(want['id']) and t[2] == hx(want['pubkey']) and t[3] == hx(want['sig'])
@@ -65,6 +70,12 @@ def run():
         k = rng.choice(jsongen.KNOWN)
         bad = rng.choice([b'1', b'"x"', b'null', b'[]', b'{}', b'true', b'-1', b'1.5', b'1e3', b'01', b'"1"', b'[[1]]', b'[["a",1]]', b'["a"]', b'""'])
         cases.append((jsongen.render_event(rng, v, overrides={k: bad}), b'', 'any', None))
+    # hex members of the right BYTE length that are not hex digits (characters that alias hex digits when bits are masked off)
+    for _ in range(150 if Q else 2000):
+        v = jsongen.rand_event_values(rng)
+        k = rng.choice(['id', 'pubkey', 'sig'])
+        alias, utf8 = jsongen.hex_aliases(rng, 64 if k == 'sig' else 32)
+        cases.append((jsongen.render_event(rng, v, overrides={k: b'"' + alias + b'"'}, ws=False), b'', 'nothex', None))
     w, m = c.run_both(['EVJ %s %d %d' % (hx(t + tr), 8192, rng.randrange(1, 1 << 40)) for t, tr, _, _ in cases])
     lines = ['EVJ %s 8192 1' % hx(t + tr) for t, tr, _, _ in cases]
     c.evaluations += len(cases)
@@ -81,6 +92,9 @@ def run():
             c.violation('oracle', 'a valid event text was rejected', [l[:3000], '# text: ' + repr(txt[:300])])
         if expect == 'reject' and cls == 'ok':
             c.violation('oracle', 'an integer member that does not fit its field was accepted', [l[:3000]])
+        if expect == 'nothex' and cls == 'ok':
+            c.violation('oracle', 'a hex member that is not made of hex digits was accepted', [l[:3000], '# text: ' + repr(txt[:400])])
+            continue
         if cls == 'ok':
             t = a.split(' ')
             consumed, n = int(t[1]), int(t[2])
